@@ -16,6 +16,7 @@ import (
 	"sort"
 	"strings"
 	"sync"
+	"sync/atomic"
 	"time"
 
 	"github.com/fatedier/frp/pkg/config/types"
@@ -74,6 +75,7 @@ type Obs struct {
 	Used    []ResB   `json:"used"`
 	Eps     []ResB   `json:"eps"`
 	Dead    []int    `json:"dead"`
+	Accepts int      `json:"accepts"` // connections returned by all members' Accept calls together
 	// property monitors evaluated on the Go side
 	Eff      []int  `json:"eff"`               // effective schedule: one entry per atomic step actually taken, in order
 	Overlap  bool   `json:"overlap,omitempty"` // a leave ran to completion while a join was parked between lookup and mutation
@@ -204,6 +206,7 @@ type world struct {
 	nReq   int
 	closer []func()
 
+	accepts  int32 // connections returned by members' Accept (atomic)
 	manual   bool  // members' Accept is called by the choreography, not by a loop
 	parked   []int // join threads parked at the after_lookup gate, in arrival order
 	obs      *Obs
@@ -366,6 +369,7 @@ func (w *world) acceptLoop(tid int, t *thread) {
 			w.mu.Unlock()
 			return
 		}
+		atomic.AddInt32(&w.accepts, 1)
 		_, _ = c.Write([]byte{byte(tid)})
 		_ = c.Close()
 	}
@@ -821,6 +825,7 @@ func runCase(c *Case, progress func(tid int)) (*Obs, error) {
 			}
 		}
 	}
+	o.Accepts = int(atomic.LoadInt32(&w.accepts))
 	tab := w.table()
 	names := make([]string, 0, len(tab))
 	for n := range tab {
@@ -974,6 +979,7 @@ func (w *world) closeRace(o *Obs) error {
 	w.th[3].st = sLeaving
 	w.took(3) // close(closeCh)
 	deliver := func(tid int, c net.Conn) {
+		atomic.AddInt32(&w.accepts, 1)
 		_, _ = c.Write([]byte{byte(tid)})
 		_ = c.Close()
 		w.took(2)
